@@ -102,7 +102,14 @@ func (it *Interp) leaf(fr *Frame, x *ssa.Call, fn *ssa.Function, args []Value) V
 		}
 		t = it.ApplyTerm(t)
 		if !provenBelow(t, f.M) {
-			return fail("argument " + t.String() + " of ToMontgomery is not provably below the modulus")
+			// a range check made by comparison only (the borrow of t - m without the subtraction): the path assumes it
+			below := false
+			if k, isC := it.DeepApplyTerm(LT(t, TConst(f.M))).IsConst(); isC && k.Sign() != 0 {
+				below = true
+			}
+			if !below {
+				return fail("argument " + t.String() + " of ToMontgomery is not provably below the modulus")
+			}
 		}
 		setMont(EmbTerm(f, t))
 	case "FromMontgomery":
